@@ -83,8 +83,15 @@ def scenarios(quick):
         S.append({'group': 'hungarian', 'calls': [h1, h2, h1], 'variant': 'cold', 'prefill': None})
         S.append({'group': 'cache', 'calls': [sv('json/race.json', 'Draft7Validator'), sv('json/event.json', 'Draft7Validator'),
                                               sv('json/competition.json', 'Draft7Validator')], 'variant': 'sv20', 'prefill': ('sv', 20)})
+    # after the concurrent calls have returned, the same program goes on: every call of the scenario is made once more
+    # and the validation caches are asked for a key they have not seen - what the threads left behind must serve later
+    # callers exactly like a single-threaded program would
     for i, s in enumerate(S):
         s['id'] = i
+        s['epilogue'] = list(s['calls'])
+        if s['group'] == 'cache':
+            s['epilogue'] = s['epilogue'] + [sv('json/performance.json', 'Draft7Validator') if s['prefill'][0] == 'sv'
+                                             else va('sample-jsons/athlete_minimal.json', 'json/athlete.json')]
     return S
 
 
@@ -215,7 +222,7 @@ def _solo(arg):
     sc, i = arg
     _prepare(sc)
     try:
-        return _norm(('ok', _call(sc['calls'][i])))
+        return _norm(('ok', _call((sc['calls'] + sc['epilogue'])[i])))
     except BaseException as e:
         return _norm(('exc', type(e).__name__))
 
@@ -233,6 +240,13 @@ def _execute(arg, prepared=False):
     ctl = sched.Controlled(fns, os.path.join(common.REPO, 'athlib'), snapshot=_snapshot, all_lines=sc['group'] != 'cache')
     results, executed = ctl.run(segments)
     final = _snapshot()
+    later = []
+    for c in sc['epilogue']:
+        try:
+            later.append(('ok', _call(c)))
+        except BaseException as e:     # noqa
+            later.append(('exc', type(e).__name__))
+    results = list(results) + later
     events = model_events(sc['group'], ctl.trace, final) if sc['group'] in LABELS and len(sc['calls']) == 2 else None
     snaps = sorted({s for _, _, s in ctl.trace})
     return {'results': [_norm(r) for r in results], 'executed': executed, 'snaps': snaps, 'events': events,
@@ -397,10 +411,10 @@ def run(tier):
         # (b) real code under the scheduler
         S = scenarios(quick)
         with ctx.Pool(common.NCPU) as pool:
-            solos = pool.map(_pool_solo, [(s, i) for s in S for i in range(len(s['calls']))], chunksize=2)
+            solos = pool.map(_pool_solo, [(s, i) for s in S for i in range(len(s['calls']) + len(s['epilogue']))], chunksize=2)
             it = iter(solos)
             for s in S:
-                s['expected'] = [next(it) for _ in s['calls']]
+                s['expected'] = [next(it) for _ in s['calls'] + s['epilogue']]
             # learn step counts: each thread first (non-preemptive)
             probes = pool.map(_pool_exec, [(s, [(t, None) for t in ([f] + [x for x in range(len(s['calls'])) if x != f])])
                                            for s in S for f in range(len(s['calls']))], chunksize=2)
@@ -480,12 +494,14 @@ def run(tier):
                 if pr['kind'] == 'drift':
                     rep.add_drift('%s in %s [%s]' % (pr['clauses'], desc, s['variant']))
                     continue
-                bad = [i for i in range(len(s['calls'])) if ex['results'][i] != s['expected'][i]]
+                allc = s['calls'] + s['epilogue']
+                bad = [i for i in range(len(allc)) if ex['results'][i] != s['expected'][i]]
                 for i in bad:
-                    sig = '%s:%s:%s' % (s['group'], s['calls'][i][0], 'error' if ex['results'][i].startswith('exc') else 'wrong_value')
-                    rep.add_violation(sig, '%s [%s]: under schedule %s thread %d got %s, single-threaded %s' % (
-                        desc, s['variant'], seg, i, ex['results'][i], s['expected'][i]),
-                        {'scenario': {k: s[k] for k in ('group', 'calls', 'variant', 'prefill')}, 'segments': seg})
+                    sig = '%s:%s:%s' % (s['group'], allc[i][0], 'error' if ex['results'][i].startswith('exc') else 'wrong_value')
+                    who = 'thread %d' % i if i < len(s['calls']) else 'the later call %s%r' % (allc[i][0], allc[i][1])
+                    rep.add_violation(sig, '%s [%s]: under schedule %s %s got %s, single-threaded %s' % (
+                        desc, s['variant'], seg, who, ex['results'][i], s['expected'][i]),
+                        {'scenario': {k: s[k] for k in ('group', 'calls', 'variant', 'prefill', 'epilogue')}, 'segments': seg})
         phases['record_validation'] = round(_t.time() - t0, 1)
         # code -> spec: the executions of the lazily-built-table code as behaviours of the PlusCal model
         for group in sorted(LABELS):
@@ -551,9 +567,10 @@ def replay(rec):
     sc = dict(r['scenario'])
     sc['calls'] = [(c[0], tuple(c[1]), c[2]) for c in sc['calls']]
     sc['prefill'] = tuple(sc['prefill']) if sc['prefill'] else None
+    sc['epilogue'] = [(c[0], tuple(c[1]), c[2]) for c in sc.get('epilogue', [])]
     seg = [tuple(x) for x in r['segments']]
     ex = isolated(_execute, (sc, seg))
-    for i, c in enumerate(sc['calls']):
+    for i, c in enumerate(sc['calls'] + sc['epilogue']):
         print('  thread %d %s%r -> %s   (alone: %s)' % (i, c[0], c[1], ex['results'][i], isolated(_solo, (sc, i))))
     print('  interleaving', ''.join(map(str, ex['executed'])))
     return 0
